@@ -428,6 +428,55 @@ func init() {
 				fatalf("bam: Reader.Read: unknown buffer call %s in fixed part", m)
 			}
 		}
+		// Length expressions of the variable part of Reader.Read, translated with the
+		// fixed-width arithmetic of their Go types (nLen uint8, nCigar uint16, lSeq int):
+		// the arguments of b.unsafeBytes (name, CIGAR block) and b.bytes (sequence).
+		var c05Unsafe, c05Bytes []ast.Expr
+		ast.Inspect(rd.Body, func(n ast.Node) bool {
+			c, ok := n.(*ast.CallExpr)
+			if !ok || len(c.Args) != 1 {
+				return true
+			}
+			if sel, ok := c.Fun.(*ast.SelectorExpr); ok {
+				if x, ok := sel.X.(*ast.Ident); ok && x.Name == "b" {
+					switch sel.Sel.Name {
+					case "unsafeBytes":
+						c05Unsafe = append(c05Unsafe, c.Args[0])
+					case "bytes":
+						c05Bytes = append(c05Bytes, c.Args[0])
+					}
+				}
+			}
+			return true
+		})
+		if len(c05Unsafe) != 2 || len(c05Bytes) != 3 {
+			fatalf("bam: Reader.Read: expected 2 b.unsafeBytes and 3 b.bytes calls, found %d and %d", len(c05Unsafe), len(c05Bytes))
+		}
+		if a, b := bam.src(c05Bytes[1]), bam.src(c05Bytes[2]); a != "lSeq" || b != "b.len()" {
+			fatalf("bam: Reader.Read: quality/aux lengths are now %q and %q", a, b)
+		}
+		c05tr := &tr{p: bam, prefix: "bam", fn: rd}
+		for _, d := range []struct {
+			name, v string
+			e       ast.Expr
+		}{{"nameLen", "nLen", c05Unsafe[0]}, {"cigarLen", "nCigar", c05Unsafe[1]}, {"seqLen", "lSeq", c05Bytes[0]}} {
+			var idx []string
+			body := c05tr.expr(d.e, &idx)
+			if len(idx) != 0 {
+				fatalf("bam: Reader.Read: index expression in the %s length", d.name)
+			}
+			ast.Inspect(d.e, func(n ast.Node) bool {
+				if id, ok := n.(*ast.Ident); ok {
+					if o := bam.info.Uses[id]; o != nil {
+						if _, isVar := o.(*types.Var); isVar && id.Name != d.v {
+							fatalf("bam: Reader.Read: the %s length now depends on %s", d.name, id.Name)
+						}
+					}
+				}
+				return true
+			})
+			fmt.Fprintf(w, "(* bam.Reader.Read: %s *)\nDefinition bam_Read_%s (v_%s : Z) : Z := %s.\n", bam.src(d.e), d.name, d.v, body)
+		}
 		fmt.Fprintf(w, "(* bam.Reader.Read: (width, kind, destination) of the fixed part in source order; kind 0 unsigned, 1 int32, 2 discard; destinations as the writer's fields *)\n")
 		fmt.Fprintf(w, "Definition bam_Read_fixed : list (Z * Z * Z) := [\n  %s].\n", strings.Join(reads, ";\n  "))
 	}
